@@ -690,7 +690,7 @@ def canon_model(t):
         else:
             acts.append(["or", a, b])
     return {"out": CLASS[cls], "code": code - U32 if code >= (1 << 31) else code, "rem": rem, "state": hx(state),
-            "kv": [[hx(k), hx(v)] for k, v in kv], "logs": [[hx(e) for e in seg] for seg in logs], "rv": hx(rv),
+            "kv": [[hx((kn, kw)), hx(v)] for kn, kw, v in kv],   # ((n,ws),(n',ws')) prints as (n, ws, (n', ws')) "logs": [[hx(e) for e in seg] for seg in logs], "rv": hx(rv),
             "actions": acts, "ints": [hx(i) for i in ints], "changed": [x == "true" for x in changed],
             "hashes": [(k, unpk(d)) for k, d in hashes], "unspec": unspec == "true", "lower": lower == "true", "ticks": ticks}
 
@@ -941,6 +941,7 @@ def run(ctx):
             todo = nxt
             if not todo:
                 break
+        ctx.log("batch %d: phase A done" % bi)
         if todo:
             raise RuntimeError("digest resolution did not converge for scripts %s" % [s["id"] for s in todo])
         # budgets
@@ -968,6 +969,7 @@ def run(ctx):
         # phase B: remaining budgets
         itemsB = [(sc, dg[sc["id"]], budgets[sc["id"]][1:]) for sc in batch if len(budgets[sc["id"]]) > 1]
         resB = eval_model(ctx, "b%d" % bi, itemsB) if itemsB else []
+        ctx.log("batch %d: phase B done" % bi)
         model = {sc["id"]: {budgets[sc["id"]][0]: resA[sc["id"]]} for sc in batch}
         for (sc, _, es), ms in zip(itemsB, resB):
             for e, m in zip(es, ms):
@@ -980,6 +982,7 @@ def run(ctx):
             ctx.violation({"layer": "harness run", "rc": rc, "output": out[-2000:]},
                           "harness crashed or produced %d lines" % len(lines), no_input=True)
             return
+        ctx.log("batch %d: implementation ran (%d runs)" % (bi, len(lines)))
         it = iter(lines)
         for sc in batch:
             for e in budgets[sc["id"]]:
